@@ -1,10 +1,12 @@
 /-
-Model of `aiocoap.resource.Site` (resource.py:313-487 of the fixed tree): the two
+Model of `aiocoap.resource.Site` (resource.py:346-547 of the fixed tree): the two
 registration dicts `_resources` / `_subsites`, `add_resource` / `remove_resource`,
-`_find_child_and_pathstripped_message` (exact match first, then the sub-site at the longest
-non-empty proper prefix, remainder `[""] ↦ []`, `_original_request_path` carried along),
-applied recursively through nested sites as `Site.render_to_pipe` / `Site.render` do, and the
-Uri-Path-Abbrev expansion `_expand_upa` in front of it.
+`_find_child_and_pathstripped_message` (exact match first; a nested site whose root was
+addressed falls back from `[]` to a resource at `[""]`; then the sub-site at the longest proper
+prefix — the empty prefix included, tried last —, remainder `[""] ↦ []`,
+`_original_request_path` carried along), applied recursively through nested sites as
+`Site.render_to_pipe` / `Site.render` do, and the Uri-Path-Abbrev expansion `_expand_upa` in
+front of it.
 
 Strings are UTF-8 byte lists (`Str`), a Uri-Path is a list of components (`Path`); only
 equality of components matters for routing.  Python dicts are association lists with unique
@@ -59,13 +61,14 @@ structure Hit where
   orig : Path
 deriving Repr, DecidableEq
 
-/-- resource.py:399-401 `if remainder == [""]: remainder = []` -/
+/-- resource.py:439-441 `if remainder == [""]: remainder = []` -/
 def normRem (r : Path) : Path := if r = [[]] then [] else r
 
-/-- The `while path:` loop of resource.py:394-406: candidate split points from `len-1` down to
-`1`; the first (longest) prefix that is a key of `_subsites` wins.  Returns the length of it. -/
+/-- The `while True:` loop of resource.py:434-449: candidate split points from `len-1` down to
+`0` (the empty prefix is tried last); the first (longest) prefix that is a key of `_subsites`
+wins.  Returns the length of it. -/
 def bestSplit (ks : List Path) (p : Path) : Nat → Option Nat
-  | 0 => none
+  | 0 => if ([] : Path) ∈ ks then some 0 else none
   | k + 1 => if p.take (k + 1) ∈ ks then some (k + 1) else bestSplit ks p k
 
 mutual
@@ -75,12 +78,20 @@ def Site.routeFrom : Site → Path → Path → Option Hit
   | .leaf id, orig, p => some ⟨id, p, orig⟩
   | .node rs ss, orig, p =>
     match lookup p rs with
-    | some r => some ⟨r.id, [], orig⟩                      -- resource.py:386-389
+    | some r => some ⟨r.id, [], orig⟩                      -- resource.py:419-422
     | none =>
-      -- resource.py:391 (`not uri_path` → KeyError) is the `p.length - 1 = 0` case
-      match bestSplit (keys ss) p (p.length - 1) with
-      | none => none
-      | some k => routeIn ss (p.take k) orig (normRem (p.drop k))
+      if p = [] then
+        -- resource.py:424-432: an empty path with a non-empty original one is a nested site
+        -- whose root was addressed (the parent took the trailing "" off): the resource
+        -- registered at `[""]` carries that address too; otherwise `KeyError`
+        if orig = [] then none
+        else match lookup [[]] rs with
+          | some r => some ⟨r.id, [], orig⟩
+          | none => none
+      else
+        match bestSplit (keys ss) p (p.length - 1) with
+        | none => none
+        | some k => routeIn ss (p.take k) orig (normRem (p.drop k))
 /-- `self._subsites[path]` and descent into it -/
 def routeIn : List (Path × Site) → Path → Path → Path → Option Hit
   | [], _, _, _ => none
@@ -88,7 +99,7 @@ def routeIn : List (Path × Site) → Path → Path → Path → Option Hit
     if q = key then s.routeFrom orig rem else routeIn rest key orig rem
 end
 
-/-- A fresh request: `_original_request_path` defaults to its own `uri_path` (resource.py:380). -/
+/-- A fresh request: `_original_request_path` defaults to its own `uri_path` (resource.py:413-417). -/
 def Site.route (s : Site) (p : Path) : Option Hit := s.routeFrom p p
 
 -- Uri-Path-Abbrev --------------------------------------------------------------------------
@@ -117,13 +128,13 @@ inductive Outcome where
   | hit (h : Hit)
 deriving Repr, DecidableEq
 
-/-- `_expand_upa` (resource.py:490-501): the effective Uri-Path, or `none` for BadOption -/
+/-- `_expand_upa` (resource.py:536-547): the effective Uri-Path, or `none` for BadOption -/
 def expandUpa (upa : Option Nat) (p : Path) : Option Path :=
   match upa with
   | none => some p
   | some n => if p ≠ [] then none else upaTable.lookup n
 
-/-- `Site.render_to_pipe` of the root site (resource.py:464-487) -/
+/-- `Site.render_to_pipe` of the root site (resource.py:510-533) -/
 def Site.serve (s : Site) (upa : Option Nat) (p : Path) : Outcome :=
   match expandUpa upa p with
   | none => .badOption
@@ -133,17 +144,17 @@ def Site.serve (s : Site) (upa : Option Nat) (p : Path) : Outcome :=
 
 -- registration -----------------------------------------------------------------------------
 
-/-- `add_resource(path, resource)` with a non-`PathCapable` resource (resource.py:433-434) -/
+/-- `add_resource(path, resource)` with a non-`PathCapable` resource (resource.py:475-476) -/
 def Site.addResource (path : Path) (r : Res) : Site → Option Site
   | .node rs ss => some (.node (insert path r rs) ss)
   | .leaf _ => none
 
-/-- `add_resource(path, site)` with a `PathCapable` one (resource.py:431-432) -/
+/-- `add_resource(path, site)` with a `PathCapable` one (resource.py:473-474) -/
 def Site.addSite (path : Path) (t : Site) : Site → Option Site
   | .node rs ss => some (.node rs (insert path t ss))
   | .leaf _ => none
 
-/-- `remove_resource` (resource.py:436-440): the sub-site of that path if there is one, else the
+/-- `remove_resource` (resource.py:478-482): the sub-site of that path if there is one, else the
 resource, else `KeyError` (`none`) -/
 def Site.remove (path : Path) : Site → Option Site
   | .node rs ss =>
